@@ -1805,6 +1805,13 @@ class MMSEIASolver(IterativeIASolverBaseClass):
 
                 # Now that we have the best value for mu_i, lets calculate Vi
                 Vi = self._calc_Vi_for_a_given_mu(sum_term, mu_i, Hii_herm_U)
+
+                # The root finder stops within its own tolerance, which can
+                # leave the power slightly above the constraint. In that
+                # case we scale Vi back onto the constraint.
+                power = np.linalg.norm(Vi, 'fro')**2
+                if power > self.P[i]:
+                    Vi = Vi * np.sqrt(self.P[i] / power)
                 # Vi = self._calc_Vi_for_a_given_mu2(
                 #     inv_sum_term, mu_i, Hii_herm_U)
 
